@@ -217,3 +217,7 @@ func vh_C11_L2_skip_purges_ordered_and_unordered_of_one_stream() {
 	vassert(a.getMyReceiverWindowCredit() == 8, "and the advertised window is the full buffer again")
 	vcover("end")
 }
+
+// C11.L1c: reading a complete message that a skip has overtaken releases everything it held,
+// index entries included (= C07.L3, which ends with that assertion).
+func vh_C11_L1_read_below_skip_point_releases_everything() { vh_C07_L3_receiver_skip_exact() }
